@@ -181,7 +181,7 @@ tokFilled:
 
 	start.Head = expr
 
-	tok, err = lexer.PeekNextToken(0)
+	tok, err = parser.ParserPeekNextToken(0)
 	if err != nil {
 		return SexpNull, err
 	}
@@ -196,6 +196,9 @@ tokFilled:
 		}
 
 		// eat up the end paren
+		if _, err = parser.ParserPeekNextToken(0); err != nil {
+			return SexpNull, err
+		}
 		tok, err = lexer.GetNextToken()
 		if err != nil {
 			return SexpNull, err
@@ -283,6 +286,14 @@ func (parser *Parser) ParseExpression(depth int) (res Sexp, err error) {
 
 	lexer := parser.lexer
 	env := parser.env
+
+	if depth > 0 {
+		// inside a form the end of the input so far is not the end of
+		// the text: wait for a token (asking for more input if needed)
+		if _, err := parser.ParserPeekNextToken(0); err != nil {
+			return SexpEnd, err
+		}
+	}
 
 	//getAnother:
 	tok, err := lexer.GetNextToken()
